@@ -132,6 +132,8 @@ impl Check for C09 {
         let mut t = Trace::new("C09", Config { cols, rows, limit: None });
         t.params.insert("cols2".into(), json!(cols2));
         t.params.insert("rows2".into(), json!(rows2));
+        // a resize in the middle of the text, at a line boundary (after the k-th CR LF)
+        t.params.insert("resize_after_line".into(), json!(r.usize_below(nlines.max(1))));
         t.events = evs;
         t
     }
@@ -185,6 +187,43 @@ impl Check for C09 {
         }
         if t1 != t2 {
             return Verdict::Violation { rule: "C09/width-dependence".into(), detail: format!("text() differs between {} and {}", geo(t.config.cols, t.config.rows), geo(cols2, rows2)) };
+        }
+        // fourth execution: the window is resized in the middle of the session, between two lines
+        // (cursor in column 0 of a fresh line, nothing pending)
+        if let Some(k) = t.param_u64("resize_after_line") {
+            let mut off = None;
+            let mut seen = 0u64;
+            let bytes: Vec<(usize, char)> = whole.char_indices().collect();
+            for w in 0..bytes.len().saturating_sub(1) {
+                if bytes[w].1 == '\r' && bytes[w + 1].1 == '\n' {
+                    if seen == k {
+                        off = Some(bytes[w + 1].0 + 1);
+                        break;
+                    }
+                    seen += 1;
+                }
+            }
+            if let Some(off) = off {
+                let (head, tail) = whole.split_at(off);
+                let r4 = catch_avt(|| {
+                    let mut vt = build(t.config.cols, t.config.rows, None);
+                    vt.feed_str(head);
+                    vt.resize(cols2, rows2);
+                    vt.feed_str(tail);
+                    read_text(&vt)
+                });
+                if let Ok((text4, unw4)) = r4 {
+                    st.bump("mid_text_resize_compared");
+                    let t4 = strip_trailing_empty(text4);
+                    if t4 != expected {
+                        return Verdict::Violation { rule: "C09/text-with-resize-between-lines".into(), detail: format!("{} resized to {} after line {}: text() != input lines; {}", geo(t.config.cols, t.config.rows), geo(cols2, rows2), k, first_diff(&t4, &expected)) };
+                    }
+                    let u4: Vec<String> = strip_trailing_empty(unw4.iter().map(|l| l.trim_end_matches(' ').to_string()).collect());
+                    if u4 != expected {
+                        return Verdict::Violation { rule: "C09/unwrapper-with-resize-between-lines".into(), detail: format!("{} resized to {} after line {}: {}", geo(t.config.cols, t.config.rows), geo(cols2, rows2), k, first_diff(&u4, &expected)) };
+                    }
+                }
+            }
         }
         let t3 = strip_trailing_empty(text3);
         if t3 != expected {
